@@ -351,7 +351,39 @@ def one_dimensional(idx: ProgramIndex, rep: Report):
                  for a in ast.walk(idx.method(L, "__init__", own=True).node))
     n += 1
     rep.add("C13-2", "%s:_OneDimensionalLikelihood.__init__" % L.module.name, L.where, q_init, "self.quadrature is a GaussHermiteQuadrature1D" if q_init else "self.quadrature is not a GaussHermiteQuadrature1D", {})
-    rep.floor("C13-2", "one-dimensional likelihood obligations", n, 3)
+    # sibling agreement: both integrands evaluate the conditional with the same extra arguments of the call
+    fwd_calls = {}
+    for mname in ("expected_log_prob", "log_marginal"):
+        fi = idx.method(L, mname, own=True)
+        for c in calls_in(fi.node):
+            if chain(c.func) == "%s.forward" % fi.params[0]:
+                fwd_calls[mname] = (fi, c)
+    if len(fwd_calls) == 2:
+        n += 1
+
+        def extras(fi, c):
+            va = fi.node.args.vararg.arg if fi.node.args.vararg else None
+            kw = fi.node.args.kwarg.arg if fi.node.args.kwarg else None
+            return (any(isinstance(a, ast.Starred) and isinstance(a.value, ast.Name) and a.value.id == va for a in c.args) if va else True,
+                    any(k.arg is None and isinstance(k.value, ast.Name) and k.value.id == kw for k in c.keywords) if kw else True)
+        e1, e2 = extras(*fwd_calls["expected_log_prob"]), extras(*fwd_calls["log_marginal"])
+        ok = e1 == e2 == (True, True)
+        rep.add("C13-2", "%s:_OneDimensionalLikelihood[extra arguments reach forward]" % L.module.name, fwd_calls["log_marginal"][0].where, ok,
+                "expected_log_prob and log_marginal both evaluate self.forward(f, *args, **kwargs)" if ok else
+                "expected_log_prob forwards (*args, **kwargs) = %s to self.forward, log_marginal %s: a likelihood whose conditional takes an argument of the call (scale=...) is integrated with its default in the one and with the given value in the other" % (e1, e2), {})
+    # torch's Distribution.log_prob takes the value only
+    LK = idx.find_class("_Likelihood")
+    for cls in sorted([LK] + list(idx.subclasses(LK)), key=lambda c: c.qualname):
+        for name, m in sorted(cls.methods.items()):
+            for c in calls_in(m.node):
+                if isinstance(c.func, ast.Attribute) and c.func.attr == "log_prob":
+                    extra = len(c.args) > 1 or any(isinstance(a, ast.Starred) for a in c.args) or bool(c.keywords)
+                    key = "%s:%s.%s[log_prob with extra arguments]" % (cls.module.name, cls.qualname, name)
+                    if extra and not any(o.rule == "C13-2" and o.instance == key for o in rep.obligations):
+                        n += 1
+                        rep.add("C13-2", key, "%s:%d" % (m.module.relpath, c.lineno), False,
+                                "`%s`: Distribution.log_prob takes the value only; the likelihood's extra arguments belong to forward - this call raises TypeError as soon as one is given" % " ".join(src(c).split())[:70], {})
+    rep.floor("C13-2", "one-dimensional likelihood obligations", n, 4)
 
 
 # ---- C13-3 ---------------------------------------------------------------------------------------------------------
